@@ -499,6 +499,9 @@ YR_API int yr_scanner_scan_mem_blocks(
   }
   else
   {
+    // The entry point found in a previous scan must not survive into this one.
+    scanner->entry_point = YR_UNDEFINED;
+
     // Create the notebook that will hold the YR_MATCH structures representing
     // each match found. This notebook will also contain snippets of the
     // matching data (the "data" field in YR_MATCH points to the snippet
